@@ -938,6 +938,7 @@ func (p *process) CallWithTimeout(to any, request any, timeout int) (any, error)
 }
 
 func (p *process) CallPID(to gen.PID, message any, timeout int) (any, error) {
+	lib.VerifPoint("call.state", p)
 	if p.isStateRW() == false {
 		return nil, gen.ErrNotAllowed
 	}
